@@ -94,7 +94,7 @@ func cmdLalr(f []string) string {
 		}
 		// does the dependency's construction, called directly with the spec's grammar and precedence levels, agree?
 		direct := "conflict"
-		if T2, err2 := lookahead.BuildParsingTable(s.Grammar, s.Precedences); err2 == nil && T2 != nil {
+		if T2 := directTable(s); T2 != nil {
 			direct = "ok"
 		}
 		return "CONFLICT " + head + " msg=" + hx(err.Error()) + " direct=" + direct
@@ -105,13 +105,24 @@ func cmdLalr(f []string) string {
 	acts, gotos := dumpTable(T, terms, tidx, nidx, pidx)
 	// the same table straight from the dependency's construction: tells a defect of the construction from one of emerge's own code
 	direct := 0
-	if T2, err2 := lookahead.BuildParsingTable(s.Grammar, s.Precedences); err2 == nil && T2 != nil {
+	if T2 := directTable(s); T2 != nil {
 		a2, g2 := dumpTable(T2, terms, tidx, nidx, pidx)
 		if strings.Join(a2, ";") == strings.Join(acts, ";") && strings.Join(g2, ";") == strings.Join(gotos, ";") {
 			direct = 1
 		}
 	}
 	return "OK " + head + " acts=" + strings.Join(acts, ";") + " gotos=" + strings.Join(gotos, ";") + fmt.Sprintf(" direct=%d", direct)
+}
+
+// the dependency's construction called directly. Whether it settles an entry with three or more actions depends on the
+// order in which it happens to visit them (fixed in emerge by c31491e), so it is asked several times.
+func directTable(s *spec.Spec) *lr.ParsingTable {
+	for i := 0; i < 12; i++ {
+		if T, err := lookahead.BuildParsingTable(s.Grammar, s.Precedences); err == nil && T != nil {
+			return T
+		}
+	}
+	return nil
 }
 
 // every ACTION/GOTO entry of a table, in the numbering of the dump
